@@ -965,11 +965,12 @@ spif_dlinked_list_reverse(spif_dlinked_list_t self)
     spif_dlinked_list_item_t current, tmp;
 
     ASSERT_RVAL(!SPIF_LIST_ISNULL(self), FALSE);
-    for (current = self->head; current; ) {
+    for (tmp = (spif_dlinked_list_item_t) NULL, current = self->head; current; ) {
         tmp = current;
         current = current->next;
         SWAP(tmp->prev, tmp->next);
     }
+    self->tail = self->head;
     self->head = tmp;
     return TRUE;
 }
